@@ -524,6 +524,10 @@ def c03_eval(work, drv, nl, trigger=None, second_pass=True):
     m = drv.ask({"fn": "compose", "net": c1, "ts": [0, 0, 0, 0, 0, 0]})
     impl_toks = drv.ask({"fn": "lex", "text": text1})
     if "ok" in m:
+        if not m.get("clean", False):
+            # decidable hypothesis of C03.edif_roundtrip_text / lex_layout: inside the quantifier (no
+            # double quote / line break in names and strings) the emitted expression must be clean
+            res["corr"].append(("writer: emitted s-expression is clean (hypothesis of edif_roundtrip_text)", "n/a", {"clean": False}))
         model_toks = drv.ask({"fn": "lex", "text": m["ok"]})
         if mask_timestamp(impl_toks) != mask_timestamp(model_toks):
             k = next((i for i, (a, b) in enumerate(zip(mask_timestamp(impl_toks), mask_timestamp(model_toks))) if a != b),
